@@ -135,13 +135,25 @@ class C15(Prop):
     # ---- C ------------------------------------------------------------------
     def prepare(self, ctx):
         self.exe = E.compile_harness("c15", [os.path.join(E.VERIF, "harness/c15/c15.c")], extra=("-ldl",))
+        self.fresh_mudlib(ctx)
+
+    def fresh_mudlib(self, ctx):
+        """a pristine copy of the verification mudlib: the harness remembers what the mudlib root contains when it
+        starts (everything else is removed before each efun call), so a second harness run must not inherit the
+        files the previous one left behind"""
         self.conf = E.make_mudlib(ctx.rundir, master="/c15/master.c")
+        for junk in ("outside.txt", "x.c", "a"):
+            try:
+                os.unlink(os.path.join(ctx.rundir, junk))
+            except OSError:
+                pass
         # include search path "/include:/" : the second entry is the mudlib directory itself (stored as ".")
         t = open(self.conf).read()
         t = "\n".join("IncludeDir\t/include:/" if l.startswith("IncludeDir") else l for l in t.splitlines()) + "\n"
         open(self.conf, "w").write(t)
 
     def run_impl(self, ctx, cases):
+        self.fresh_mudlib(ctx)
         res = E.run_harness(self.exe, self.conf, cases, ctx.rundir, args=("--timeout", "120"))
         if len(cases) > 50:          # the main evaluation (not a shrink / replay round)
             touched = {}
